@@ -1,0 +1,115 @@
+//go:build verif
+
+// Contracts for the deductive verifier in /verif (govc): the search scheduler
+// never leaks or double-releases a slot (C20). Comment-only file, compiled
+// only with -tags verif.
+
+package search
+
+// ---------------------------------------------------------------------------
+// C20: slot accounting of one scheduled search ("process")
+// ---------------------------------------------------------------------------
+
+// heldI / heldB: number of interactive / batch slots the process under
+// discussion holds (ghost). wI / wB: the weighted semaphores of the two queues
+// of the scheduler under discussion.
+//@ ghost var heldI int
+//@ ghost var heldB int
+//@ ghost var wI *semaphore.Weighted
+//@ ghost var wB *semaphore.Weighted
+// ctxDone(ctx): the context is cancelled or past its deadline (abstract).
+//@ abstract func ctxDone(ctx context.Context) bool
+
+// golang.org/x/sync/semaphore (assumed, from its documentation): Acquire either
+// takes the weight or fails - only when the context is done; Release gives the
+// weight back and must not give back more than is held. That at most
+// `capacity` is out at any time is the semaphore's own guarantee (assumed).
+//@ func semaphore.(*Weighted).Acquire
+//@   trusted
+//@   ensures result != nil ==> ctxDone(ctx) && heldI == old(heldI) && heldB == old(heldB)
+//@   ensures result == nil ==> heldI == old(heldI) + ite(s == wI, n, 0) && heldB == old(heldB) + ite(s == wB, n, 0)
+//@   assigns heldI, heldB
+//@ func semaphore.(*Weighted).Release
+//@   trusted
+//@   requires (s == wI ==> heldI >= n) && (s == wB ==> heldB >= n)
+//@   ensures heldI == old(heldI) - ite(s == wI, n, 0) && heldB == old(heldB) - ite(s == wB, n, 0)
+//@   assigns heldI, heldB
+
+// One queue: a successful Acquire takes exactly one slot of that queue, a
+// failed one takes none and happens only when the context is done; Release
+// gives back exactly one slot, which must be held.
+//@ func search.(*sema).Acquire
+//@   requires s != nil && s.sem != nil && s.metricQueued != nil && s.metricRunning != nil
+//@   may_panic
+//@   ensures result == nil ==> heldI == old(heldI) + ite(s.sem == wI, 1, 0) && heldB == old(heldB) + ite(s.sem == wB, 1, 0)
+//@   ensures result != nil ==> heldI == old(heldI) && heldB == old(heldB) && ctxDone(ctx)
+//@   assigns heldI, heldB
+
+//@ func search.(*sema).Release
+//@   requires s != nil && s.sem != nil && s.metricRunning != nil
+//@   requires (s.sem == wI ==> heldI >= 1) && (s.sem == wB ==> heldB >= 1)
+//@   may_panic
+//@   ensures heldI == old(heldI) - ite(s.sem == wI, 1, 0) && heldB == old(heldB) - ite(s.sem == wB, 1, 0)
+//@   assigns heldI, heldB
+
+// The slot variable captured by the two closures of a process: nil exactly
+// when no slot is held, otherwise the queue whose slot is held - exactly one.
+//@ pure func okSema(q *sema) bool = q.sem != nil && q.metricQueued != nil && q.metricRunning != nil
+//@ pure func slotInv(sem *sema) bool = wI != wB && (sem == nil ==> heldI == 0 && heldB == 0) && (sem != nil ==> okSema(sem) && ((sem.sem == wI && heldI == 1 && heldB == 0) || (sem.sem == wB && heldI == 0 && heldB == 1)))
+
+// releaseFunc: afterwards nothing is held, whatever was held before, and a
+// second call releases nothing (the slot variable is nil).
+//@ func search.(*multiScheduler).Acquire$1
+//@   requires slotInv(sem)
+//@   ensures sem == nil && heldI == 0 && heldB == 0
+
+// yieldFunc: gives up the current slot, then waits for a batch slot; on
+// success exactly one batch slot is held, on failure (context done) none.
+//@ func search.(*multiScheduler).Acquire$2
+//@   requires slotInv(sem) && s != nil && s.semBatch != nil && okSema(s.semBatch) && s.semBatch.sem == wB
+//@   ensures result == nil ==> sem == s.semBatch && heldI == 0 && heldB == 1
+//@   ensures result != nil ==> sem == nil && heldI == 0 && heldB == 0 && ctxDone(ctx)
+
+// Acquire: a successful acquisition holds exactly one interactive slot; a
+// failed one holds nothing and happens only when the context is done.
+//@ func search.(*multiScheduler).Acquire
+//@   requires s != nil && s.semInteractive != nil && okSema(s.semInteractive) && s.semInteractive.sem == wI && wI != wB
+//@   requires heldI == 0 && heldB == 0
+//@   ensures result1 == nil ==> result0 != nil && heldI == 1 && heldB == 0 && result0.releaseFunc != nil && result0.yieldFunc != nil
+//@   ensures result1 != nil ==> result0 == nil && heldI == 0 && heldB == 0 && ctxDone(ctx)
+
+// The two function-valued fields of a process, as the process methods see them
+// (abstractions of the closures above; that the closures' private invariant
+// slotInv holds whenever they are called is an object-invariant argument:
+// Acquire establishes it and both closures preserve it).
+//@ func search.process.releaseFunc()
+//@   ensures heldI == 0 && heldB == 0
+//@   assigns heldI, heldB
+//@ func search.process.yieldFunc(ctx)
+//@   requires heldI + heldB <= 1
+//@   ensures result == nil ==> heldI + heldB == 1
+//@   ensures result != nil ==> heldI == 0 && heldB == 0 && ctxDone(ctx)
+//@   assigns heldI, heldB
+
+// Release: nothing is held afterwards. Yield: the process keeps exactly one
+// slot (interactive or batch) or, if moving to the batch queue failed because
+// the context is done, none - never two, never a leaked one.
+//@ func search.(*process).Release
+//@   requires p != nil && p.releaseFunc != nil
+//@   ensures heldI == 0 && heldB == 0
+//@ func search.(*process).Yield
+//@   requires p != nil && (p.yieldTimer != nil ==> p.yieldFunc != nil) && heldI + heldB == 1
+//@   ensures result == nil ==> heldI + heldB == 1
+//@   ensures result != nil ==> heldI == 0 && heldB == 0 && ctxDone(ctx)
+
+// The yield timer only ever writes its own timer field (time.Timer.Stop is
+// assumed not to touch program memory).
+//@ func time.(*Timer).Stop
+//@   trusted
+//@   assigns nothing
+//@ func search.(*deadlineTimer).Stop
+//@   requires t != nil
+//@   assigns t.t
+//@ func search.(*deadlineTimer).Exceeded
+//@   requires t != nil
+//@   assigns t.t
